@@ -144,6 +144,25 @@ def run(c):
     c.obligation("schedules: %d line-granular schedules of 2-3 real threads return serial results" % len(cases), not bad_cases, "correspondence")
     if len(c.samples) < 3:
         c.samples.append({"graph": cases[0][0], "call": cases[0][1], "endpoints": cases[0][2], "plan": cases[0][3]})
+    # when the skeleton obligation is broken and no random schedule failed: a systematic two-pre-emption sweep on real threads -- T1 runs k1 lines
+    # (into the lazy rebuild), T2 runs k2 lines (through its first lookup into a later one), T1 finishes, T2 finishes
+    if c.broken() and not bad_cases:
+        found = None
+        for gname, kind, eps in (("chain3", "compile", [("a", "c"), ("a", "c")]), ("chain4", "compile", [("a", "d"), ("b", "d")])):
+            for k1 in range(1, 14):
+                for k2 in range(1, 170, 2):
+                    plan = [("T1", k1), ("T2", k2), ("T1", 10 ** 6), ("T2", 10 ** 6)]
+                    bad, ntrace = run_case(gname, kind, eps, plan)
+                    evals += 1
+                    if bad:
+                        found = {"kind": "schedule", "graph": gname, "call": kind, "endpoints": eps, "plan": plan, "differing": bad}
+                        break
+                if found:
+                    break
+            if found:
+                break
+        if found:
+            c.violation("a call on a shared layer returned a different result than when run alone (%s, plan %s; found by the systematic two-pre-emption sweep)" % (found["call"], found["plan"]), found)
     # when the skeleton obligation is broken and no real schedule failed yet: search the model, report what it finds
     if c.broken() and prog is not None:
         try:
